@@ -194,6 +194,7 @@ func vcRun(raw json.RawMessage, layout string, wide int, r *rand.Rand, pool []vc
 	vr := make([]bool, n+1)
 	if !ok || cosi == nil {
 		ev["vr"], ev["aggS"], ev["aggN"], ev["fv"], ev["panic"], ev["fvpanic"] = vr, false, false, false, panicked, false
+		ev["fvUsed"], ev["fvCopy"], ev["fvAgg"], ev["fvBack"], ev["tvUsed"], ev["nkeys"] = false, false, false, false, c.Thr <= 0, 0
 		return ev
 	}
 
@@ -333,6 +334,47 @@ func vcRun(raw json.RawMessage, layout string, wide int, r *rand.Rand, pool []vc
 	note(p)
 	ev["fv"] = ok
 	ev["fvpanic"] = p
+
+	// ---- the same verification on signature VALUES that were already used: the verdict may depend
+	// only on (signature bytes, mask, keys, threshold, message), never on what the value went through.
+	use := func(v *CosiSignature, keys []*Key, thr int, m Hash) {
+		_, p := vcOK(func() error { return v.FullVerify(keys, thr, m) })
+		note(p)
+		_, p = vcOK(func() error { _ = v.Keys(); _ = v.ThresholdVerify(thr); return nil })
+		note(p)
+	}
+	mutate := func(v *CosiSignature) { // direct writes to the exported fields
+		v.Signature = final.Signature
+		v.Mask = final.Mask
+	}
+	verify := func(v *CosiSignature, keys []*Key, thr int, m Hash) bool {
+		ok, p := vcOK(func() error { return v.FullVerify(keys, thr, m) })
+		note(p)
+		if p {
+			ev["fvpanic"] = true
+		}
+		return ok
+	}
+	// (1) honest value verified first, then turned into the final form by field writes
+	u := &CosiSignature{Signature: cpN.Signature, Mask: cpN.Mask}
+	use(u, publics, 1, msg)
+	cp := *u // (2) a struct copy of the used value
+	mutate(u)
+	ev["fvUsed"] = verify(u, vkeys, c.Thr, vm)
+	ev["tvUsed"] = u.ThresholdVerify(c.Thr)
+	ev["nkeys"] = len(u.Keys())
+	mutate(&cp)
+	ev["fvCopy"] = verify(&cp, vkeys, c.Thr, vm)
+	// (3) the aggregated value itself (it went through AggregateResponse) turned into the final form
+	w := cpN
+	mutate(&w)
+	ev["fvAgg"] = verify(&w, vkeys, c.Thr, vm)
+	// (4) the other order: the final form verified first, then restored to the aggregated form and
+	// verified with the signing key vector and message
+	b := &CosiSignature{Signature: final.Signature, Mask: final.Mask}
+	use(b, vkeys, c.Thr, vm)
+	b.Signature, b.Mask = cpN.Signature, cpN.Mask
+	ev["fvBack"] = verify(b, publics, c.Thr, msg)
 	ev["panic"] = panicked
 	return ev
 }
